@@ -296,9 +296,16 @@ def handle (c : Case) : Verdict := Id.run do
     | none => fails := fails ++ [⟨false, "unparsable dump"⟩]
     | some d => fails := fails ++ checkDump cfg job d
   | [] => pure ()
-  -- lost elements are explained by F4 only if this very case shows the F4 shape in its graph
-  let graphF4 := fails.any fun f => f.f4 && !f.msg.endsWith "were lost"
-  fails := fails.map fun f => if f.msg.endsWith "were lost" && !graphF4 then ⟨false, f.msg⟩ else f
+  -- lost elements are explained by F4 only if the executed job has the F4 shape
+  -- (`Unlimited` on `cores` cores forwarded to `Limited(k)` with 1 < k < cores)
+  let lostShape := c.ops.any fun w =>
+    match w with
+    | ["lost", cores, _, k] =>
+      match cores.toNat?, k.toNat? with
+      | some cores, some k => 1 < k && k < cores
+      | _, _ => false
+    | _ => false
+  fails := fails.map fun f => if f.msg.endsWith "were lost" && !lostShape then ⟨false, f.msg⟩ else f
   let oracle :=
     match fails with
     | [] => none
